@@ -47,7 +47,7 @@ WORKERS = {"quick": 1, "thorough": 14}
 
 def gen_cases(ctx):
     rng = ctx.rng
-    for i in range(ctx.scale(150, 5000)):
+    for i in range(ctx.scale(500, 12000)):
         c = gen_history_case(rng, max_jobs=rng.choice([2, 3, 4]), max_machines=rng.choice([2, 3, 4]),
                              classes=gen.INSTANCE_CLASSES + ["flexible"])
         c["kind"] = "dispatcher" if i % 3 else "env"
